@@ -142,7 +142,10 @@ func moveText(t *rapid.T, b *board.Board) string {
 		return g[gen.Draw(t, 0, len(g)-1, "gm")]
 	}
 	sq := func(s chess.Square) string { return s.String() }
-	switch gen.Draw(t, 0, 6, "textKind") {
+	switch gen.Draw(t, 0, 7, "textKind") {
+	case 7: // tokens with a meaning elsewhere in the protocol or in other notations, and moves that go nowhere
+		special := []string{"0000", "0000q", "00000", "null", "(none)", "none", "-", "--", "a1a1", "e1e1", "e8e8", "h8h8", "O-O", "O-O-O", "0-0", "0-0-0", "o-o", "e1h1", "e8a8", "e2-e4", "E2E4", "e2e4+", "Nf3", "ponder", "moves", "startpos"}
+		return special[gen.Draw(t, 0, len(special)-1, "special")]
 	case 0:
 		return pick().String()
 	case 1: // promotion letter appended / changed
